@@ -293,3 +293,58 @@ pub fn uni_res(r: &huginn_net::output::FingerprintResult) -> UniRes {
     let tls = r.tls_client.as_ref().map(tls_out).unwrap_or_default();
     UniRes { tcp, http, tls }
 }
+
+// ---------- pcap route: drives the analyzers' own (private) per-packet path through `analyze_pcap` ----------
+fn scratch_pcap(frames: &[Vec<u8>]) -> std::path::PathBuf {
+    use std::sync::atomic::{AtomicU64, Ordering};
+    static N: AtomicU64 = AtomicU64::new(0);
+    let dir = std::env::var("HV_SCRATCH").unwrap_or_else(|_| "/dev/shm".to_string());
+    let p = std::path::PathBuf::from(dir).join(format!("hv-{}-{}.pcap", std::process::id(), N.fetch_add(1, Ordering::Relaxed)));
+    crate::gen::pkt::write_pcap(&p, 101, frames).expect("scratch pcap is writable");
+    p
+}
+pub fn tls_pcap(frames: &[Vec<u8>], filter: Option<huginn_net_tls::FilterConfig>, cap: usize) -> Result<Vec<TlsRes>, String> {
+    let p = scratch_pcap(frames);
+    let (tx, rx) = std::sync::mpsc::channel();
+    let mut a = huginn_net_tls::HuginnNetTls::new(cap);
+    if let Some(f) = filter {
+        a = a.with_filter(f);
+    }
+    let r = a.analyze_pcap(p.to_str().unwrap_or(""), tx, None).map_err(|e| e.to_string());
+    let _ = std::fs::remove_file(&p);
+    r?;
+    Ok(rx.try_iter().map(|o| tls_out(&o)).collect())
+}
+pub fn tcp_pcap(frames: &[Vec<u8>], filter: Option<huginn_net_tcp::FilterConfig>, cap: usize) -> Result<Vec<TcpRes>, String> {
+    let p = scratch_pcap(frames);
+    let (tx, rx) = std::sync::mpsc::channel();
+    let mut a = huginn_net_tcp::HuginnNetTcp::new(Some(db_arc()), cap).map_err(|e| e.to_string())?;
+    if let Some(f) = filter {
+        a = a.with_filter(f);
+    }
+    let r = a.analyze_pcap(p.to_str().unwrap_or(""), tx, None).map_err(|e| e.to_string());
+    let _ = std::fs::remove_file(&p);
+    r?;
+    Ok(rx.try_iter().map(|o| tcp_res(&o)).collect())
+}
+pub fn http_pcap(frames: &[Vec<u8>], filter: Option<huginn_net_http::FilterConfig>, cap: usize) -> Result<Vec<HttpRes>, String> {
+    let p = scratch_pcap(frames);
+    let (tx, rx) = std::sync::mpsc::channel();
+    let mut a = huginn_net_http::HuginnNetHttp::new(Some(db_arc()), cap).map_err(|e| e.to_string())?;
+    if let Some(f) = filter {
+        a = a.with_filter(f);
+    }
+    let r = a.analyze_pcap(p.to_str().unwrap_or(""), tx, None).map_err(|e| e.to_string());
+    let _ = std::fs::remove_file(&p);
+    r?;
+    Ok(rx.try_iter().map(|o| http_res(&o)).collect())
+}
+/// the bundled database, loaded once (the analyzers take an `Arc<Database>`)
+pub fn db_arc() -> std::sync::Arc<Database> {
+    static DB: std::sync::OnceLock<std::sync::Arc<Database>> = std::sync::OnceLock::new();
+    DB.get_or_init(|| std::sync::Arc::new(Database::load_default().expect("bundled database loads"))).clone()
+}
+pub fn db() -> &'static Database {
+    static DB: std::sync::OnceLock<Database> = std::sync::OnceLock::new();
+    DB.get_or_init(|| Database::load_default().expect("bundled database loads"))
+}
